@@ -13,6 +13,7 @@ INFO = {
                    "data-dependent branch or operation, both of which change the DAG / path set. R04-3: the byte order of "
                    "serialize_proof_values, its decoder and the verifier's public-input order are mutually consistent.",
     "r04_4": "R04-4: the native proving entry points publish exactly serialize_proof_values(proof_values_from_witness(W)) of the witness they prove",
+    "r04_6": "R04-6 (shared with C05 R05-1): the witness calculation behind the circuit's outputs reaches no process-wide or thread-local state",
     "r04_5": "R04-5 (shared with C20 R20-4): the circuit's outputs are computed from the witness's own inputs: each named input vector is placed whole at its declared offset under an exact length test, the evaluator dispatches to the same-named operators, the outputs are the declared output signals",
     "not_decided": "equality with positions 1..5 of the circuit witness (needs evaluating the witness graph: numeric)",
     "assumptions": ["poseidon_hash and arkworks Fp +,* are the functions of the specification (C09 covers the hash's parameters and shape)"],
@@ -48,6 +49,13 @@ def run(ctx):
     c20.check_evaluate(sub, ctx.fb("default"))
     for r in sub.results:
         (ctx.ok if r.status == "ok" else ctx.fail)("R04-5", r.instance, r.reason, r.loc)
+    # R04-6 (shared with C05 R05-1): the circuit's outputs are those of THIS instance's graph: the witness calculation reaches no
+    # process-wide or thread-local state (a cached decoded graph would make them another circuit's)
+    from . import c05
+    sub6 = _Ctx2(ctx.pid, ctx.tier)
+    c05.check_purity(sub6, ctx.fb("default"))
+    for r in sub6.results:
+        (ctx.ok if r.status == "ok" else ctx.fail)("R04-6", r.instance, r.reason, r.loc)
     fx = ctx.fb("fixtures")
     from ..main import Ctx
     for fn, rule, f in [("pvfw_region_branch", "R04-1", check_pvfw), ("pvfw_x_in_nullifier", "R04-1", check_pvfw),
